@@ -14,6 +14,8 @@
 //! ST A T S W H CH NCALLS counts.. DIRTY TOTAL data..   stream (A=1) / stream_no_alpha (A=0), T = f|h|b, S = spec index
 //! ```
 //! Any record body may be `panic <site>` instead.
+//! `loading <hex> cut=<n> region=.. chunks=..`: the same for `render_loading_frame()` after the
+//! first `n` bytes (one keyframe record; `skip <why>` when nothing can be rendered yet).
 use jxl_oxide::{CropInfo, ExtraChannelType, FrameBufferSample, ImageStream, JxlImage, JxlThreadPool, Render};
 use jxl_render::ImageBuffer;
 use std::fmt::Write;
@@ -267,6 +269,67 @@ fn render(bytes: &[u8], region: Option<CropInfo>, spot: Option<bool>, specs: &[S
     out
 }
 
+/// `loading <hex> cut=<n> region=.. chunks=.. [wide=]`: the first `n` bytes are fed, then
+/// `render_loading_frame()` is asked twice: with the full image as region (its grids are the
+/// unoriented reference, record `U`) and with the requested region (record `K`, all output forms).
+/// Same answer format as `render` with one keyframe; `skip <why>` when there is nothing to render.
+fn loading(bytes: &[u8], cut: usize, region: Option<CropInfo>, specs: &[Spec], wide: bool) -> String {
+    let mut uninit = JxlImage::builder()
+        .pool(JxlThreadPool::none())
+        .force_wide_buffers(wide)
+        .alloc_tracker(jxl_oxide::AllocTracker::with_limit(1 << 30))
+        .build_uninit();
+    let cut = cut.min(bytes.len());
+    if let Err(e) = uninit.feed_bytes(&bytes[..cut]) {
+        return format!("skip feed-{}", err_class(&*e));
+    }
+    let mut image = match uninit.try_init() {
+        Ok(jxl_oxide::InitializeResult::Initialized(i)) => i,
+        Ok(jxl_oxide::InitializeResult::NeedMoreData(_)) => return "skip uninit".into(),
+        Err(e) => return format!("skip init-{}", err_class(&*e)),
+    };
+    let pf = image.pixel_format();
+    let color_bits = image.image_header().metadata.bit_depth.bits_per_sample();
+    let ec_bits: Vec<u32> =
+        image.image_header().metadata.ec_info.iter().map(|e| e.bit_depth.bits_per_sample()).collect();
+    let mut out = format!(
+        "ok {} {} {} {} {} {} 1",
+        image.width(),
+        image.height(),
+        image.image_header().metadata.orientation,
+        pf.channels(),
+        pf.has_black() as u32,
+        pf.has_alpha() as u32,
+    );
+    match catch(std::panic::AssertUnwindSafe(|| image.render_loading_frame())) {
+        Err(p) => return format!("{} U {}", out, p),
+        Ok(Err(e)) => return format!("skip loading-{}", err_class(&*e)),
+        Ok(Ok(r)) => dump_unoriented(&r, color_bits, &ec_bits, &mut out),
+    }
+    if let Some(c) = region {
+        image.set_image_region(c);
+    }
+    match catch(std::panic::AssertUnwindSafe(|| image.render_loading_frame())) {
+        Err(p) => write!(out, " K {}", p).unwrap(),
+        Ok(Err(e)) => write!(out, " K kerr {}", err_class(&*e)).unwrap(),
+        Ok(Ok(r)) => {
+            write!(out, " K {}", r.orientation()).unwrap();
+            let (_, ecb) = r.extra_channels();
+            write!(out, " GR {}", r.color_channels().len() + ecb.len()).unwrap();
+            for b in r.color_channels().iter().chain(ecb.iter()) {
+                let (w, h) = match b {
+                    ImageBuffer::F32(g) => (g.width(), g.height()),
+                    ImageBuffer::I32(g) => (g.width(), g.height()),
+                    ImageBuffer::I16(g) => (g.width(), g.height()),
+                };
+                write!(out, " {} {}", w, h).unwrap();
+            }
+            dump_forms(&r, specs, &mut out);
+        }
+    }
+    out
+}
+
 fn parse_specs(s: &str) -> Option<Vec<Spec>> {
     s.split(';')
         .map(|p| match p {
@@ -287,8 +350,9 @@ fn parse_specs(s: &str) -> Option<Vec<Spec>> {
 fn main() {
     install_quiet_panic_hook();
     line_loop((), |_, w| match w {
-        ["render", hexs, rest @ ..] => {
+        [op @ ("render" | "loading"), hexs, rest @ ..] => {
             let Some(bytes) = unhex(hexs) else { return "bad-op".into() };
+            let mut cut = usize::MAX;
             let mut region = None;
             let mut spot = None;
             let mut specs = vec![Spec::Whole];
@@ -311,7 +375,15 @@ fn main() {
                     }
                 } else if let Some(v) = r.strip_prefix("wide=") {
                     wide = v == "1";
+                } else if let Some(v) = r.strip_prefix("cut=") {
+                    cut = v.parse().unwrap_or(usize::MAX);
                 }
+            }
+            if *op == "loading" {
+                return match catch(|| loading(&bytes, cut, region, &specs, wide)) {
+                    Ok(s) => s,
+                    Err(p) => p,
+                };
             }
             match catch(|| render(&bytes, region, spot, &specs, wide)) {
                 Ok(s) => s,
